@@ -283,7 +283,8 @@ class ValidationContext(ASTValidationContext):
         usages = self._recursive_variable_usages.get(operation)
         if usages is None:
             get_variable_usages = self.get_variable_usages
-            usages = get_variable_usages(operation)
+            # copy the list, since the usages of the operation alone are cached as well
+            usages = list(get_variable_usages(operation))
             for fragment in self.get_recursively_referenced_fragments(operation):
                 usages.extend(get_variable_usages(fragment))
             self._recursive_variable_usages[operation] = usages
